@@ -2,6 +2,7 @@ package pongo2
 
 import (
 	"bytes"
+	"fmt"
 )
 
 type nodeFilterCall struct {
@@ -65,6 +66,11 @@ func tagFilterParser(doc *Parser, start *Token, arguments *Parser) (INodeTag, *E
 			return nil, arguments.Error("Expected a filter name (identifier).", nil)
 		}
 		filterCall.name = nameToken.Val
+
+		// Check sandbox filter restriction (the filter is looked up by name at execution time)
+		if _, isBanned := doc.template.set.bannedFilters[filterCall.name]; isBanned {
+			return nil, arguments.Error(fmt.Sprintf("Usage of filter '%s' is not allowed (sandbox restriction active).", filterCall.name), nameToken)
+		}
 
 		if arguments.MatchOne(TokenSymbol, ":") != nil {
 			// Filter parameter
